@@ -58,7 +58,7 @@ func TraitWithId(traitId int, traits []*neat.Trait) *neat.Trait {
 
 // NodeWithId Utility to select NNode with given ID from provided NNodes array
 func NodeWithId(nodeId int, nodes []*network.NNode) *network.NNode {
-	if nodeId != 0 && nodes != nil {
+	if nodes != nil {
 		for _, n := range nodes {
 			if n.Id == nodeId {
 				return n
